@@ -26,6 +26,7 @@ import PGProofs.SampleConsistency
 import PGProofs.Marginal
 import PGProofs.MomentsThm
 import PGProofs.MarginalsThm
+import PGProofs.EndToEnd3
 
 set_option linter.all false
 set_option pp.fieldNotation.generalized false
@@ -108,6 +109,9 @@ theorem marg_code_demes : type_of% @PG.Marginals.code_deme_marginals := @PG.Marg
 /-- kernel-checked: permute=False in get_cov with a symmetrised .cov leaves get_cov / corr asymmetric -/
 theorem marg_no_permute_defect : Marginals.covCore Marginals.Variant.demeCovNoPermute Marginals.Examples.distA Marginals.Examples.rawA Marginals.Kind.demes 0 1 = 25 / 18 ∧ Marginals.covCore Marginals.Variant.demeCovNoPermute Marginals.Examples.distA Marginals.Examples.rawA Marginals.Kind.demes 1 0 = 5 / 6 := @PG.Marginals.Examples.demeCovNoPermute_violates_getCov_symm
 
+/-- deme marginals of the code functional decompose the total with NO hypothesis on the visited states (DemeShape derived from the BFS invariant 1 <= sum c <= sum cinit) -/
+theorem marg_code_demes_unconditional : type_of% @PG.EndToEnd.code_deme_marginals_unconditional := @PG.EndToEnd.code_deme_marginals_unconditional   -- (printed statement does not re-elaborate; see the source lemma)
+
 end PG.C12
 
 #print axioms PG.C12.empty_deme_zero
@@ -135,3 +139,4 @@ end PG.C12
 #print axioms PG.C12.marg_empty_part
 #print axioms PG.C12.marg_code_demes
 #print axioms PG.C12.marg_no_permute_defect
+#print axioms PG.C12.marg_code_demes_unconditional
